@@ -138,8 +138,15 @@ CHECKS.update({
         technique="Lean 4 proof (loader/printer round trip, scheduler invariant) + differential execution against the real parser and printer"),
 })
 
+CHECKS.update({
+    "C14": dict(
+        category="proof",
+        text="Partial. A translator (harness/cmd/vaccess: go/packages + go/ssa + VTA call graph) regenerates on every run the table of shared-memory accesses of pkg/cmd — goroutine roots, and for each the fields / globals / captured variables it reads or writes, with lock set, atomicity and position relative to the forks and joins of its children — as lean/ShkModel/Gen/Access.lean. Lean 4: an abstract fork/join/lock execution model with happens-before and Race; a hand-written ownership policy per location (initThenReadOnly, handoff, atomic, locked, perInstance, message); theorem discipline_sound (a table that passes disciplineOk admits no racing execution, any number of thread instances and events, by induction over the fork tree), table_ok (the regenerated table passes, decide +kernel), current_table_race_free. Dynamic cross-check and failing-input search: the binary built with Go's race detector on generated plays (spotlights, concurrent lines, auditors, repeats, failures, -S, signals); a race report is the replay.",
+        note="Partial: the translator's facts and Go's synchronisation semantics are trusted; memory is named by type (per-instance objects assumed not shared between instances); objects sent over channels are assumed not touched by the sender afterwards; the one-minute hard-shutdown exit is outside the theorem; other packages are opaque to the static side (the race detector covers them dynamically: that is how the pkg/crdb/log race was found).",
+        technique="Lean 4 proof (ownership discipline implies data-race freedom) over an access table regenerated from the source by a translator; Go race detector as failing-input search"),
+})
+
 NOT_APPLICABLE = [
-    {"property_id": "C14", "reason": "data-race freedom is a property of memory accesses under the Go memory model; no executable Lean model compared on values can exhibit an unsynchronised access (DESIGN.md 5/C14)"},
 ]
 
 PENDING_REASON = "machinery not built yet in this round (see DESIGN.md section 5 for the plan); not claimed"
